@@ -1,5 +1,6 @@
 import HdVerif.Proofs.PMap
 import HdVerif.Proofs.PMapTie
+import HdVerif.Proofs.PMapRead
 import HdVerif.Props.C07
 /-! # C19  Parametric maps and secondary captures store the given pixels
 
@@ -18,7 +19,7 @@ native element, finding and applying the real-world value mapping (`Model/PMap.l
 Values are opaque cells (the item's little-endian bytes), so "equal" below is bit-exact equality,
 NaN payloads, infinities and negative zero included. -/
 namespace HdVerif.C19
-open HdVerif HdVerif.Gen HdVerif.Codec HdVerif.PMap
+open HdVerif HdVerif.Gen HdVerif.Codec HdVerif.PMap HdVerif.FrameAccess
 
 /-! ## what is built -/
 
@@ -261,6 +262,55 @@ theorem mapping_defined_in_range (mp : Mapping) (v : Int) :
         applyMapping mp [v] = .ok [(v : Rat) * mp.slope + mp.intercept]) :=
   ⟨fun f l hl hf hlen hv => lut_defined_in_range mp f l hl hf hlen v hv, fun hl hv => linear_defined_in_range mp hl v hv⟩
 
+
+/-! ## every read path, every history (round 2; `Model/PMapRead.lean`, `Proofs/PMapRead.lean`) -/
+
+/-- **Tie, read paths**: the hand-written `readStoredFrame` (byte range of frame `f`, cells) equals the un-cached branch of
+`get_stored_frame` / `get_stored_frames` written with the call skeleton and byte-range / offset arithmetic REGENERATED from
+`image.py` and `io.py` for C05 (T1, T1b, T4, T11, T11b, T11c) -- on the in-memory data set and on the lazily read file, for the
+1-based frame number and the 0-based index -- and the cached branch (`pixel_array[...]` with the regenerated subscript). -/
+theorem tie_read_paths (x : PMInput) (o : PMObject) (h : build x = .ok o) (hel : o.element = "PixelData") (hw : CellsWF x)
+    (hpos : 0 < x.r * x.c * x.itemsize) (f : Nat) (hf : f < x.n * x.m) (sk : Skel) (hsk : sk = singleSkel ∨ sk = batchSkel)
+    (how : Holding) (ai : Bool) :
+    storedUncached sk how o (frameKey f ai) ai = readStoredFrame o f ∧
+    storedCached sk o (frameKey f ai) ai = readStoredFrame o f :=
+  read_paths_tie x o h hel hw hpos f hf sk hsk how ai
+
+/-- **Reads return the stored values after every history on one object** (native integer maps; induction over the sequence
+of operations): whatever sequence of `get_stored_frame`, `get_stored_frames` elements, `pixel_array` accesses and
+`get_frame(apply_real_world_transform=True, selector)` calls -- in range or refused -- is made on one image object, held in
+memory or read lazily, starting with or without a decoded pixel array, every read returns the plane `f / m` of channel
+`f mod m` (resp. that plane under the selected mapping of that channel; `IndexError` beyond the image): the cache never changes
+what a read returns. -/
+theorem reads_after_any_history (how : Holding) (x : PMInput) (o : PMObject) (h : build x = .ok o)
+    (hel : o.element = "PixelData") (hw : CellsWF x) (hpos : 0 < x.r * x.c * x.itemsize) (hne : 0 < x.n * x.m)
+    (ops : List ReadOp) (cached : Bool) :
+    run how o cached ops = ops.map (spec x) :=
+  run_spec how x o h hel hw hpos hne ops cached
+
+/-- **Open finding C19-float-frames-unreadable, with its history**: for a map stored in `FloatPixelData` /
+`DoubleFloatPixelData`, `get_stored_frame` fails on a fresh object, returns the plane (bit-exactly) once `pixel_array` was touched
+on the in-memory object, keeps failing on a lazily read one; the real-world transform fails in every state.  What a read returns
+depends on what was called before. -/
+theorem float_reads_depend_on_history (x : PMInput) (o : PMObject) (h : build x = .ok o) (hel : o.element ≠ "PixelData")
+    (f : Nat) (ai : Bool) (hf : f < x.n * x.m) (sel : Selector) (how : Holding) :
+    run .memory o false [.stored f ai, .pixelArray, .stored f ai] =
+      [.cells (.error .attribute), .done, .cells (.ok (plane x (f / x.m) (f % x.m)))] ∧
+    run .lazy o false [.stored f ai, .pixelArray, .stored f ai] =
+      [.cells (.error .attribute), .failed .attribute, .cells (.error .attribute)] ∧
+    ∀ cached, (step how o cached (.real f ai sel)).2 = .reals (.error .attribute) :=
+  PMap.float_reads_depend_on_history x o h hel f ai hf sel how
+
+/-- **Bit-exact storage as a statement about bit patterns** (every dtype, every element): with the array's items given as
+`itemsize`-byte patterns -- for float32 / float64 the IEEE 754 pattern, so NaN payloads, infinities, negative zero and
+denormals are patterns like any other -- the element holds, at byte offset `((f * rows*columns) + p) * itemsize`, little-endian,
+the pattern of pixel `p` of plane `f / m`, channel `f mod m`: nothing is normalised, rounded, or re-ordered. -/
+theorem element_holds_bit_patterns (x : PMInput) (o : PMObject) (h : build x = .ok o) (bits : Nat → Nat → Nat → Nat)
+    (hcell : ∀ i p j, x.cell i p j = leBytes x.itemsize (bits i p j)) (hb : ∀ i p j, bits i p j < 256 ^ x.itemsize)
+    (f p : Nat) (hf : f < x.n * x.m) (hp : p < x.r * x.c) :
+    ofLeBytes ((o.pixelData.drop ((f * (x.r * x.c) + p) * x.itemsize)).take x.itemsize) = bits (f / x.m) p (f % x.m) :=
+  PMap.element_holds_bit_patterns x o h bits hcell hb f p hf hp
+
 /-! ## secondary captures -/
 
 /-- **The image pixel module of `SCImage`** (regenerated decision block) accepts exactly `SCAccepted`: bool
@@ -476,5 +526,25 @@ example (e : PMEncapsulated) (h : buildEncapsulated tagCodec { exampleInput with
     readStoredFrameEncapsulated tagCodec id rle e 2 = .ok [5, 7] :=
   stored_frames_exact_encapsulated_partial tagCodec (tagCodec_lossless _) id { exampleInput with ts := rle } e h (Or.inl rfl) 2
     (by decide)
+
+/-! ### round 2: non-vacuity of the history / bit-pattern theorems -/
+/-- a float32 map whose items are the patterns of a quiet NaN with payload, -0.0, +inf and a denormal -/
+def floatInput : PMInput :=
+  { exampleInput with
+    dtypeKind := "f", dtypeName := "float32", dtypeStr := "float32", itemsize := 4,
+    cell := fun i k j => leBytes 4 ([0x7FC00123, 0x80000000, 0x7F800000, 0x00000001, 0xFFC00001, 0x3F800000, 0, 0xFF800000].getD ((i * 2 + k) * 2 + j) 0) }
+example : (build floatInput).toOption.map (fun o => (o.element, o.pixelData.take 8)) =
+    some ("FloatPixelData", [0x23, 0x01, 0xC0, 0x7F, 0x00, 0x00, 0x80, 0x7F]) := by decide
+/-- the history theorem on the example map: un-cached read, then `pixel_array`, then a batch read by index and a real-world read -/
+example (o : PMObject) (h : build exampleInput = .ok o) :
+    run .lazy o false [.stored 2 false, .pixelArray, .storedBatch 3 true, .real 1 false (.label "b"), .stored 4 false] =
+      [.cells (.ok [[5, 0], [7, 0]]), .done, .cells (.ok [[6, 0], [8, 0]]), .reals (.ok [4, 7]), .cells (.error .index)] := by
+  rw [reads_after_any_history .lazy exampleInput o h
+    (by have := (element_and_bits exampleInput o h).1.dtype; rcases this with ⟨_, _, he, _⟩ | ⟨hk, _⟩ | ⟨hk, _⟩
+        · exact he
+        · exact absurd hk (by decide)
+        · exact absurd hk (by decide))
+    (by intro i k j; rfl) (by decide) (by decide)]
+  decide +kernel
 
 end HdVerif.C19
